@@ -1,3 +1,4 @@
+import SF.Lemmas.CtiAffine
 import SF.Lemmas.SpecFacts
 import SF.Lemmas.Real
 import SF.Lemmas.Cog
@@ -201,3 +202,14 @@ theorem cti_monotone_not_one : pearsonIdx ([1, 2, 4] : List ℝ) ≠ 1 := by
   rw [← h1] at this
   norm_num at this
 end SF.C06.K1
+
+namespace SF.C06.Real
+open SF SF.Spec
+/-- **CTI is +1 on every increasing AFFINE window and −1 on every decreasing affine one**, for every N ≥ 2 and whatever
+preceded — the provable part of the property's last sentence (on a monotone but non-affine window it is not ±1: `K1`) -/
+theorem cti_affine_window (N : Nat) (hN : 2 ≤ N) (a b : ℝ) (ha : a ≠ 0) (pre : List ℝ) :
+    Spec.cti N (pre ++ (CtiAffine.ks N).map fun x => a * x + b) = some (if 0 < a then 1 else -1) :=
+  CtiAffine.cti_affine_window N hN a b ha pre
+/-- the time index itself: k = 0, 1, …, n−1 -/
+theorem ks_eq (n : Nat) : CtiAffine.ks n = (List.range n).map fun k => ((k : ℕ) : ℝ) := rfl
+end SF.C06.Real
